@@ -4,7 +4,7 @@ obligations.lock.json is committed; a check run compares against it (missing id 
 locked id no longer discharged => violation of that obligation)."""
 import glob, json, os
 root = os.path.dirname(os.path.abspath(__file__))
-lock = {}
+lock = json.load(open(os.path.join(root, "obligations.lock.json"))) if os.path.exists(os.path.join(root, "obligations.lock.json")) else {}  # properties not re-run keep their entry
 for f in sorted(glob.glob(os.path.join(root, "out", "obligations", "*.json"))):
     pid = os.path.basename(f)[:-5]
     names = json.load(open(f))
